@@ -165,7 +165,20 @@ pub fn check_numeric(rep: &mut Rep, form: &str, x: f64, s: TimeScale) {
     rep.sample("numeric", || format!("{:?} => reading {} +- {} ns in {:?}", txt, denoted, tol, s));
     // other spellings of the same text (no blank after the prefix, doubled blanks, surrounding blanks): not documented, so
     // an Err is fine - but a value must be the instant the text denotes, never another one
-    for alt in [format!("{}{} {}", form, x, scale_name(s)), format!("{}  {} {}", form, x, scale_name(s)), format!(" {} {} {} ", form, x, scale_name(s)), format!("{} {}  {}", form, x, scale_name(s))] {
+    // (round 8: and other spellings of the *number* - explicit plus sign, power-of-ten exponent as `{:e}` / `{:E}` print it,
+    // leading zeros: the statement promises the forms, not a number grammar, so again a value must be the right one)
+    let plus = if x >= 0.0 { "+" } else { "" };
+    for alt in [
+        format!("{}{} {}", form, x, scale_name(s)),
+        format!("{}  {} {}", form, x, scale_name(s)),
+        format!(" {} {} {} ", form, x, scale_name(s)),
+        format!("{} {}  {}", form, x, scale_name(s)),
+        format!("{} {}{} {}", form, plus, x, scale_name(s)),
+        format!("{} {:e} {}", form, x, scale_name(s)),
+        format!("{} {:E} {}", form, x, scale_name(s)),
+        format!("{} {}{:e} {}", form, plus, x, scale_name(s)),
+        format!("{} {}00{} {}", form, if x < 0.0 { "-" } else { "" }, x.abs(), scale_name(s)),
+    ] {
         if let Ok(Ok(g)) = guard(|| Epoch::from_str(&alt)) {
             rep.class("num/alternative-spelling-accepted");
             if g.time_scale != s || (count_d(g.duration) - denoted).abs() > tol {
